@@ -138,6 +138,11 @@ def is_generator(fdef):
     return False
 
 
+# filled from the namedtuple definitions of the repository (see
+# engine.layout.register_fragment_fields)
+TUPLE_FIELDS = {}
+
+
 class Evaluator(object):
     """Evaluate a FunctionDef on given arguments.
 
@@ -189,6 +194,8 @@ class Evaluator(object):
         # an Obj and runs its __init__
         self.instantiate_classes = False
         self.class_state = {}
+        # tag -> field names of tagged tuples standing in for namedtuples
+        self.tuple_fields = TUPLE_FIELDS
         # evaluate the operand of `raise` (Raised.value); off by default
         self.evaluate_raises = False
         # names bound to plain python values (stand-ins for imported
@@ -701,6 +708,11 @@ class Evaluator(object):
             return Unknown('%s.%s' % (base.what, e.attr))
         if isinstance(base, Sym):
             return Sym(base.module, '%s.%s' % (base.name, e.attr))
+        if isinstance(base, tuple) and base and isinstance(
+                base[0], str) and base[0] in self.tuple_fields and \
+                e.attr in self.tuple_fields[base[0]]:
+            # a tagged stand-in of a namedtuple: field access by name
+            return base[1 + self.tuple_fields[base[0]].index(e.attr)]
         if base is None and not e.attr.startswith('__'):
             # python: 'NoneType' object has no attribute ...
             raise Raised("AttributeError(\"'NoneType' object has no "
